@@ -339,7 +339,8 @@ class Session:
             if uk.key is None or uk.password is None:
                 continue
             real = uk.password
-            for desc, wrong in (('real+1', real + b'!'), ('real+many', real + b' and a long tail' * 5), ('real-1', real[:-1]), ('last-byte', real[:-1] + bytes([real[-1] ^ 1]))):
+            for desc, wrong in ((('real+1', real + b'!'), ('real+many', real + b' and a long tail' * 5), ('real-1', real[:-1]), ('last-byte', real[:-1] + bytes([real[-1] ^ 1])))
+                                if real else (('one-space', b' '), ('newline', b'\n'))):          # an empty pass phrase has no neighbours to cut from
                 tmp = harness.User('x', wrong, uk.key, None)
                 o = self.world.command(tmp, lambda r: r.list_snapshots(header=False), cache=None)
                 self._marker('out', {'a': 'unlock', 'p': 1, 'key': k, 'pw': k, 'imp': desc, 'ok': bool(o.ok), 'etype': o.etype}, 'out')
